@@ -327,3 +327,9 @@ package mysql
 //@   ensures case advance: ret1 == nil ==> c.sequence == old(c.sequence) + 1
 //@   ensures case size:    ret1 == nil ==> len(ret0) <= 16777215
 //@   ensures case failed:  ret1 != nil ==> ret0 == nil
+
+// ---------------------------------------------------------------- C26 only connection errors count for the circuit breaker
+//@ property C26: AsConnError
+//@ func AsConnError
+//@   assigns \nothing
+//@   ensures ret0 <==> typeis(err, ConnTypeError)
